@@ -1,6 +1,26 @@
 import OmplModel.Proofs.CopyArchive
 import OmplModel.Proofs.CopyState
 
+/-
+`StateSpace::getCommonSubspaces` and `copyStateData(dest, src, names)` (`OmplModel.Model.Copy`: `cslLess`, `cslInsert`,
+`erasePass`, `eraseCovered`, `commonSubspaces`, `csdNames`).  Core Lean only.
+
+G1  the `std::set` under `CompareSubstateLocation` loses no name: `cslLess_equiv` (equivalent ⇒ same name and
+    dimension), `mem_cslInsert`, `mem_cslInsert_of_names_ne`, `cslInsert_names` (unconditional), `cslInsert_sorted`,
+    `CslSorted.names_nodup`; a dimension-only comparator does lose one (`cslInsertWith dimOnlyLess`, `example`).
+    Trees: `Sp.ind` (induction over genuine compounds), `IsNode`, `chain_unique` / `IsNode.eq_of_name` (with pairwise
+    distinct names the name determines chain and node), `covers_refl`, `covers_trans` (on the nodes of one such tree).
+G2  the erase loop (`erasePass` = one pass of the `for it / for jt` double loop, `eraseCovered` = `while (found)`):
+    `eraseCovered_sublist` (a), `eraseCovered_covered` / `eraseCovered_mem_or_covered` (b), `eraseCovered_minimal` (c).
+G3  `commonSubspaces_spec` (= `_sound`, `_complete`, `_minimal`, `_names_nodup`), `commonSubspaces_complete_node`,
+    `commonSubspaces_sorted`; the substate map: `findSub_mem`, `findSub_isSome_iff`, `mem_subLocs`, `subLocs_keys`,
+    `findSub_node`, `findSub_of_node`; the set before the erase loop: `mem_commonInter`.
+G4  `csdNames_common_all`.
+G5  `csdNames_state` (any list of names whose copied entries are pairwise non-nested), `csdNames_common_state`
+    (the sampler's call) and `csdNames_common_complete` (every node of the destination whose name is a key of the
+    source's map ends up with the source's substate, also the nodes erased from the set as covered).
+-/
+
 namespace OmplModel.Copy
 
 /-! ## G1 -/
@@ -1365,5 +1385,116 @@ theorem csdNames_common_state {D S : Sp} {d s : St} (ctx : CopyCtx D S s) (hd : 
     intro n hn _ dc hdc
     obtain ⟨x, hx, rfl⟩ := List.mem_map.mp hn
     exact hq x hx dc hdc
+
+/-! ### all common data is copied
+
+After the sampler's call the destination substate of *every* node of `D` whose name is a key of the source's map equals
+the source substate of that name — also of the nodes that were erased from the set because another one covers them. -/
+
+theorem St.sub_append : ∀ (p q : List Nat) (st : St), st.sub (p ++ q) = (st.sub p).bind (·.sub q)
+  | [], q, st => by simp [St.sub_nil]
+  | i :: r, q, st => by
+    cases st with
+    | comp cs =>
+      simp only [List.cons_append, St.sub_comp]
+      cases cs[i]? with
+      | none => simp
+      | some c => simp [St.sub_append r q c]
+    | leaf _ => simp [St.sub]
+    | wrap _ => simp [St.sub]
+
+/-- the copied space includes the node: the node's substate came along -/
+theorem sub_eq_of_includes {D S : Sp} (hD : (spNames D).Nodup) (hS : (spNames S).Nodup) {r x : Sp}
+    {dc sc q sq : List Nat} (hrD : nodeAt D dc = some r) (hrS : nodeAt S sc = some r)
+    (hxD : nodeAt D q = some x) (hxS : nodeAt S sq = some x) (hinc : includes r x = true) (R s : St)
+    (hR : R.sub dc = s.sub sc) : R.sub q = s.sub sq := by
+  obtain ⟨t, x', hx', hn⟩ := exists_node_of_mem_spNames r x.name ((includes_iff r x).mp hinc)
+  have hD' : nodeAt D (dc ++ t) = some x' := by rw [nodeAt_append, hrD]; simpa using hx'
+  have hS' : nodeAt S (sc ++ t) = some x' := by rw [nodeAt_append, hrS]; simpa using hx'
+  have : x' = x := IsNode.eq_of_name hD ⟨_, hD'⟩ ⟨q, hxD⟩ hn
+  subst this
+  rw [chain_unique D q (dc ++ t) x' x' hD hxD hD' rfl, chain_unique S sq (sc ++ t) x' x' hS hxS hS' rfl,
+    St.sub_append, St.sub_append, hR]
+
+/-- the copied space covers the node: the node's substate came along (piecewise, if the node is a compound covered
+through its components) -/
+theorem sub_eq_of_covers {D S : Sp} (hD : (spNames D).Nodup) (hS : (spNames S).Nodup) {r : Sp}
+    {dc sc : List Nat} (hrD : nodeAt D dc = some r) (hrS : nodeAt S sc = some r) (R s : St)
+    (hfR : fits D R = true) (hfs : fits S s = true) (hR : R.sub dc = s.sub sc) (x : Sp) :
+    ∀ (q sq : List Nat), nodeAt D q = some x → nodeAt S sq = some x → covers r x = true → R.sub q = s.sub sq := by
+  induction x using Sp.ind with
+  | leaf x hx =>
+    intro q sq hxD hxS hc
+    rw [covers_leaf r x hx] at hc
+    exact sub_eq_of_includes hD hS hrD hrS hxD hxS hc R s hR
+  | comp nm cs ih =>
+    intro q sq hxD hxS hc
+    by_cases hinc : includes r (.compound nm cs) = true
+    · exact sub_eq_of_includes hD hS hrD hrS hxD hxS hinc R s hR
+    · simp only [covers, hinc, Bool.false_or, coversL_eq, List.all_eq_true] at hc
+      obtain ⟨a, ha, hfa⟩ := fits_sub q D R _ hfR hxD
+      obtain ⟨b, hb, hfb⟩ := fits_sub sq S s _ hfs hxS
+      obtain ⟨as, rfl, hfas⟩ := fits_compound hfa
+      obtain ⟨bs, rfl, hfbs⟩ := fits_compound hfb
+      obtain ⟨hla, _⟩ := (fitsL_iff cs as).mp hfas
+      obtain ⟨hlb, _⟩ := (fitsL_iff cs bs).mp hfbs
+      rw [ha, hb]
+      congr 2
+      apply List.ext_getElem?
+      intro k
+      by_cases hk : k < cs.length
+      · have hck : cs[k]? = some cs[k] := List.getElem?_eq_getElem hk
+        have hmem : cs[k] ∈ cs := List.getElem_mem hk
+        have h1 : nodeAt D (q ++ [k]) = some cs[k] := by rw [nodeAt_snoc D q nm cs hxD k, hck]
+        have h2 : nodeAt S (sq ++ [k]) = some cs[k] := by rw [nodeAt_snoc S sq nm cs hxS k, hck]
+        have := ih cs[k] hmem (q ++ [k]) (sq ++ [k]) h1 h2 (hc cs[k] hmem)
+        rw [St.sub_append, St.sub_append, ha, hb] at this
+        simp only [Option.bind_some, St.sub_comp] at this
+        have hak : as[k]? = some as[k] := List.getElem?_eq_getElem (by omega)
+        have hbk : bs[k]? = some bs[k] := List.getElem?_eq_getElem (by omega)
+        rw [hak, hbk] at this ⊢
+        simpa [St.sub_nil] using this
+      · rw [List.getElem?_eq_none (by omega), List.getElem?_eq_none (by omega)]
+
+/-- the end-to-end statement for `copyStateData(dest, src, getCommonSubspaces(...))`: for every node of `D` (at chain
+`q`) whose name is a key of the source's map (at chain `sq`), the destination substate at `q` is the source substate
+at `sq` -/
+theorem csdNames_common_complete {D S : Sp} {d s : St} (ctx : CopyCtx D S s) (hD : (spNames D).Nodup)
+    (hS : (spNames S).Nodup) (hd : fits D d = true) (q sq : List Nat) (x : Sp) (hx : nodeAt D q = some x)
+    (hsq : findSub (substateLocs S) x.name = some sq) :
+    (csdNames D d S s ((commonSubspaces D S).map Sp.name)).1.sub q = s.sub sq := by
+  obtain ⟨_, hfit, hcopied, _⟩ := csdNames_common_state ctx hd
+  -- the source's node of that name is the same space
+  obtain ⟨y, hy, hyn⟩ := findSub_node ctx.hSw hsq
+  have hxy : x = y := ctx.coh x y ⟨q, hx⟩ ⟨sq, hy⟩ hyn.symm
+  subst hxy
+  -- some returned space covers it
+  have hfound : nameFound D S x.name = true := by
+    simp [nameFound, findSub_of_node ctx.hDw hD hx, hsq]
+  obtain ⟨chain, node, _, hnode, hnn, r, hr, hcov⟩ := commonSubspaces_complete ctx.hDw hD x.name hfound
+  have : node = x := IsNode.eq_of_name hD ⟨chain, hnode⟩ ⟨q, hx⟩ hnn
+  subst this
+  obtain ⟨dc, sc, _, _, hrD, hrS, hR⟩ := hcopied r hr
+  exact sub_eq_of_covers hD hS hrD hrS _ s hfit ctx.fitS hR node q sq hx hy hcov
+
+/-! ### non-vacuity -/
+
+/-- the standing assumptions hold for a space copied onto itself -/
+theorem CopyCtx.self {D : Sp} {s : St} (hDw : ∀ nm sp, D ≠ .wrapper nm sp) (hD : (spNames D).Nodup)
+    (hs : fits D s = true) : CopyCtx D D s :=
+  ⟨hDw, hDw, fun _ _ hx hy h => IsNode.eq_of_name hD hx hy h, hs⟩
+
+/-- SE2-like destination and a source sharing the compound `N1 = [N2, N3]`: the components 2 and 3 are erased because
+1 covers them, and 4 is not a key of the source's map -/
+example : (commonSubspaces (.compound 0 [.compound 1 [.real 2 2, .so2 3], .so3 4])
+    (.compound 9 [.compound 1 [.real 2 2, .so2 3], .real 7 1])).map Sp.name = [1] := by decide
+
+/-- two common subspaces of equal dimension (`N2`, `N3`, both of dimension 1) are both returned -/
+example : (commonSubspaces (.compound 0 [.so2 2, .time 3, .so3 4])
+    (.compound 9 [.time 3, .so2 2])).map Sp.name = [3, 2] := by decide
+
+/-- a compound with a single component and that component cover each other; exactly one of them is kept -/
+example : (commonSubspaces (.compound 0 [.compound 1 [.real 2 1]])
+    (.compound 9 [.compound 1 [.real 2 1]])).map Sp.name = [2] := by decide
 
 end OmplModel.Copy
